@@ -106,6 +106,24 @@ func c06CorpusScripts() map[string][]string {
 			ack(sg(A[3]), tssa, 1, 1, "0xfee0000000000000000000000000000000000003")+" pf=-",
 			ack(sg(A[1]), tssa, 1, 0, "0xFEE0000000000000000000000000000000000003")+" pf="+hxs(A[3].lower),
 		),
+		// chain names differing only in letter case are different chains: registered for TELEPORT_9000-11 (a TSS
+		// client here) confers nothing for teleport_9000-11 (the Tendermint client) — before and after being moved
+		"case-sibling-chain-names": append(append([]string{}, head...),
+			"mkclient "+hxs(c06SUp)+" tss "+hxs(A[2].lower),
+			reg(A[0].lower, []string{c06SUp}, []string{"0xabcdef0000000000000000000000000000000001"}),
+			"q "+S+" "+hxs(A[0].lower)+" "+hxs("0xABCDEF0000000000000000000000000000000001"),
+			"upd "+sg(A[0])+" "+S+" ? none",
+			recv(sg(A[0]), S, 1, 1),
+			"mkcommit "+T+" "+S+" 1",
+			ack(sg(A[0]), S, 1, 1, c06PoolAckRelayer(1)),
+			reg(A[0].lower, []string{c06S}, []string{"moved"}),
+			recv(sg(A[0]), S, 1, 1),
+			"upd "+sg(A[0])+" "+S+" ? none",
+			reg(A[0].lower, []string{"Tss-A", c06SUp}, []string{"a", "b"}),
+			recv(sg(A[0]), S, 2, 1),
+			"upd "+sg(A[0])+" "+S+" ? none",
+			recv(sg(A[0]), hxs(c06SUp), 1, 1),
+		),
 		// the contract level: call data inside a relayed packet and through `execute`
 		"evm-nested-paths": {
 			"evmreset",
